@@ -58,6 +58,9 @@ pub struct StoreInner {
     pub objs: Objects,
     pub ops: u64,
     pub plan: BTreeMap<u64, StoreFault>,
+    /// fault at the n-th operation (0-based) issued through the handle of actor `who`
+    pub who_plan: BTreeMap<(u32, u64), StoreFault>,
+    pub who_ops: BTreeMap<u32, u64>,
     pub fired: Vec<(u64, StoreFault)>,
     pub events: Vec<StoreEvent>,
     pub images: Vec<CrashImage>,
@@ -88,15 +91,17 @@ impl SimStore {
     /// A handle that stamps its events with `who` (to tell concurrent actors apart in traces).
     pub fn as_actor(&self, who: u32) -> Self { SimStore { inner: self.inner.clone(), who } }
     pub fn set_plan(&self, plan: BTreeMap<u64, StoreFault>) { self.inner.lock().unwrap().plan = plan; }
+    pub fn set_who_plan(&self, plan: BTreeMap<(u32, u64), StoreFault>) { self.inner.lock().unwrap().who_plan = plan; }
     pub fn set_yield(&self, on: bool) { self.inner.lock().unwrap().yield_each_op = on; }
     pub fn set_record(&self, on: bool) { self.inner.lock().unwrap().record_images = on; }
     pub fn objects(&self) -> Objects { self.inner.lock().unwrap().objs.clone() }
     pub fn ops(&self) -> u64 { self.inner.lock().unwrap().ops }
 
-    fn begin(d: &mut StoreInner) -> (u64, Option<StoreFault>) {
+    fn begin(d: &mut StoreInner, who: u32) -> (u64, Option<StoreFault>) {
         let op = d.ops;
         d.ops += 1;
-        (op, d.plan.get(&op).copied())
+        let nth = { let c = d.who_ops.entry(who).or_insert(0); let n = *c; *c += 1; n };
+        (op, d.plan.get(&op).copied().or_else(|| d.who_plan.get(&(who, nth)).copied()))
     }
     fn image(d: &mut StoreInner, op: u64, phase: &'static str) {
         if d.record_images { let objects = d.objs.clone(); d.images.push(CrashImage { op, phase, objects }); }
@@ -109,7 +114,7 @@ impl ObjectStore for SimStore {
         Box::pin(async move {
             if self.inner.lock().unwrap().yield_each_op { YieldOnce(false).await; }
             let mut d = self.inner.lock().unwrap();
-            let (op, fault) = SimStore::begin(&mut d);
+            let (op, fault) = SimStore::begin(&mut d, self.who);
             SimStore::image(&mut d, op, "before");
             // "during": the object may be left holding any prefix
             if d.record_images && !data.is_empty() {
@@ -141,7 +146,7 @@ impl ObjectStore for SimStore {
         Box::pin(async move {
             if self.inner.lock().unwrap().yield_each_op { YieldOnce(false).await; }
             let mut d = self.inner.lock().unwrap();
-            let (op, fault) = SimStore::begin(&mut d);
+            let (op, fault) = SimStore::begin(&mut d, self.who);
             let mut applied = None;
             let res = match fault {
                 Some(StoreFault::GetError) => { applied = fault; Err(SimStore::injected("get error")) }
@@ -157,7 +162,7 @@ impl ObjectStore for SimStore {
         Box::pin(async move {
             if self.inner.lock().unwrap().yield_each_op { YieldOnce(false).await; }
             let mut d = self.inner.lock().unwrap();
-            let (op, _) = SimStore::begin(&mut d);
+            let (op, _) = SimStore::begin(&mut d, self.who);
             let r = d.objs.contains_key(key);
             d.events.push(StoreEvent { op, kind: OpKind::Exists, key: key.to_string(), len: 0, fault: None, ok: true, who: self.who });
             Ok(r)
@@ -167,7 +172,7 @@ impl ObjectStore for SimStore {
         Box::pin(async move {
             if self.inner.lock().unwrap().yield_each_op { YieldOnce(false).await; }
             let mut d = self.inner.lock().unwrap();
-            let (op, fault) = SimStore::begin(&mut d);
+            let (op, fault) = SimStore::begin(&mut d, self.who);
             SimStore::image(&mut d, op, "before");
             let mut applied = None;
             let res = match fault {
@@ -184,7 +189,7 @@ impl ObjectStore for SimStore {
         Box::pin(async move {
             if self.inner.lock().unwrap().yield_each_op { YieldOnce(false).await; }
             let mut d = self.inner.lock().unwrap();
-            let (op, fault) = SimStore::begin(&mut d);
+            let (op, fault) = SimStore::begin(&mut d, self.who);
             let now = d.now_ms;
             let mut objects: Vec<ObjectMeta> = d.objs.iter().filter(|(k, _)| k.starts_with(prefix))
                 .map(|(k, v)| ObjectMeta { key: k.clone(), size_bytes: v.len() as u64, created_at_ms: now, etag: None }).collect();
@@ -199,7 +204,7 @@ impl ObjectStore for SimStore {
         Box::pin(async move {
             if self.inner.lock().unwrap().yield_each_op { YieldOnce(false).await; }
             let mut d = self.inner.lock().unwrap();
-            let (op, fault) = SimStore::begin(&mut d);
+            let (op, fault) = SimStore::begin(&mut d, self.who);
             SimStore::image(&mut d, op, "before");
             let mut applied = None;
             let res = match fault {
@@ -218,7 +223,7 @@ impl ObjectStore for SimStore {
     fn head<'a>(&'a self, key: &'a str) -> Pin<Box<dyn Future<Output = IoResult<ObjectMeta>> + Send + 'a>> {
         Box::pin(async move {
             let mut d = self.inner.lock().unwrap();
-            let (op, _) = SimStore::begin(&mut d);
+            let (op, _) = SimStore::begin(&mut d, self.who);
             let now = d.now_ms;
             let r = d.objs.get(key).map(|v| ObjectMeta { key: key.to_string(), size_bytes: v.len() as u64, created_at_ms: now, etag: None })
                 .ok_or_else(|| IoError::new(ErrorKind::NotFound, format!("not found: {}", key)));
